@@ -10,7 +10,10 @@ use std::panic::{catch_unwind, AssertUnwindSafe};
 use std::path::{Path, PathBuf};
 use std::time::{Duration, Instant};
 
-pub const VERIF_DIR: &str = "/verif";
+/// root of the verification tree: $VERIF_ROOT if set (the ./check script sets it to its own directory), else /verif
+pub fn verif_dir() -> String {
+  std::env::var("VERIF_ROOT").unwrap_or_else(|_| "/verif".to_string())
+}
 
 #[derive(Clone, Copy, PartialEq, Eq, Debug)]
 pub enum Tier {
@@ -191,7 +194,7 @@ fn ranges(v: &Value) -> Vec<(i64, i64)> {
 
 impl Findings {
   pub fn load(property: &str) -> Self {
-    let p = Path::new(VERIF_DIR).join("known_findings.json");
+    let p = Path::new(&verif_dir()).join("known_findings.json");
     let txt = match std::fs::read_to_string(&p) {
       Ok(t) => t,
       Err(_) => return Findings::default(),
@@ -603,7 +606,7 @@ pub trait Prop: Sync {
 // ---------------------------------------------------------------- parent: spawn workers, merge, report
 
 fn work_dir(prop: &str) -> PathBuf {
-  let d = Path::new(VERIF_DIR).join("harness/target/work").join(format!("{}-{}", prop, std::process::id()));
+  let d = Path::new(&verif_dir()).join("harness/target/work").join(format!("{}-{}", prop, std::process::id()));
   std::fs::create_dir_all(&d).ok();
   d
 }
@@ -617,7 +620,7 @@ pub fn run_worker(p: &dyn Prop, env: &Env, task: &str, shard: usize, nshards: us
 }
 
 pub fn run_regress(p: &dyn Prop, env: &Env, out: &mut Out) {
-  let dir = Path::new(VERIF_DIR).join("regress");
+  let dir = Path::new(&verif_dir()).join("regress");
   let mut files: Vec<PathBuf> = match std::fs::read_dir(&dir) {
     Ok(rd) => rd.filter_map(|e| e.ok()).map(|e| e.path()).filter(|p2| p2.file_name().and_then(|n| n.to_str()).map(|n| n.starts_with(&format!("{}-", p.id())) && n.ends_with(".json")).unwrap_or(false)).collect(),
     Err(_) => vec![],
@@ -747,7 +750,7 @@ fn pick_samples(m: &Out) -> Vec<Value> {
 }
 
 pub fn write_replay(prop: &str, v: &Viol) -> PathBuf {
-  let dir = Path::new(VERIF_DIR).join("replays");
+  let dir = Path::new(&verif_dir()).join("replays");
   std::fs::create_dir_all(&dir).ok();
   let h = hash_str(&v.signature(), &v.case.a) ^ v.case.f.iter().fold(0u64, |a, x| a.rotate_left(7) ^ x.to_bits()) ^ v.case.s.iter().fold(0u64, |a, x| a.rotate_left(9) ^ hash_str(x, &[]));
   let kind: String = v.kind.chars().map(|c| if c.is_ascii_alphanumeric() { c } else { '_' }).take(24).collect();
@@ -819,7 +822,7 @@ fn report(p: &dyn Prop, env: &Env, m: Out, inconclusive: Vec<String>, wall: f64)
     "wall_s": (wall * 1000.0).round() / 1000.0,
     "violations": m.viol_count,
   });
-  let edir = Path::new(VERIF_DIR).join("evidence");
+  let edir = Path::new(&verif_dir()).join("evidence");
   std::fs::create_dir_all(&edir).ok();
   std::fs::write(edir.join(format!("{}.json", p.id())), serde_json::to_string_pretty(&ev).unwrap()).expect("write evidence");
   println!("{} {} seed={} evaluations={} distinct_nontrivial={} known_hits={} violations={} wall={:.1}s", p.id(), env.tier.name(), env.seed, evaluations, m.nontrivial.len(), m.known.values().sum::<u64>(), m.viol_count, wall);
